@@ -52,6 +52,7 @@ type vScenario struct {
 	NCloseCb  int             `json:"nclosecb"`
 	ConnBody  string          `json:"connbody"` // return | close | yield
 	PrepBody  string          `json:"prepbody"` // return | close
+	DiscBody  string          `json:"discbody"` // return | waitwriters (OnDisconnect waits until every writing actor has finished)
 	Handler   []vHandlerStep  `json:"handler"`
 	Actors    []vActorSpec    `json:"actors"`
 	Peer      [][]interface{} `json:"peer"` // ["send",n] ["close"] ["rst"] ["drain",n] ["shutwr"]
@@ -62,6 +63,8 @@ type vScenario struct {
 	HoldSetup bool `json:"holdsetup"`
 	// timers fire as readily as any other step (default: rarely while anything else can move - a timeout is normally far away)
 	EagerTimers bool `json:"eagertimers"`
+	// a thief empties the connection's socket between the poller's fetch and its read, at most this many times (spurious readiness)
+	Steals int `json:"steals"`
 }
 
 type vOutEvent struct {
@@ -110,21 +113,35 @@ func vStreamByte(p int) byte {
 }
 
 type vConnRun struct {
-	sc         *vScenario
-	s          *vSched
-	mp         *vManualPoll
-	c          *connection
-	peer       int
-	out        []vOutEvent
-	sent       int // bytes the peer wrote
-	rdpos      int // bytes consumed by reads so far (expected stream position)
-	wrpos      int // bytes submitted by writes
-	prd        int // bytes the peer read
-	reqN       int
-	panicked   string
-	userClosed bool
-	inUntil    bool
-	mu         sync.Mutex
+	sc           *vScenario
+	s            *vSched
+	mp           *vManualPoll
+	c            *connection
+	peer         int
+	out          []vOutEvent
+	sent         int // bytes the peer wrote
+	rdpos        int // bytes consumed by reads so far (expected stream position)
+	wrpos        int // bytes submitted by writes
+	prd          int // bytes the peer read
+	reqN         int
+	panicked     string
+	userClosed   bool
+	skips        [][2]int // ranges of the peer's stream that a thief took from the socket before netpoll could read them
+	writersLeft  int32    // writing actors that have not finished their script
+	pastDeadline bool     // the current read has a deadline in the past (its expiry is recorded right after the call)
+	inUntil      bool
+	mu           sync.Mutex
+}
+
+func vIsWriter(a vActorSpec) bool {
+	for _, op := range a.Ops {
+		if len(op) > 0 {
+			if k, _ := op[0].(string); k == "Write" || k == "WriteT" || k == "WriteV" || k == "AppendV" {
+				return true
+			}
+		}
+	}
+	return false
 }
 
 // writers: number of actors of the scenario that submit output
@@ -153,6 +170,23 @@ func (r *vConnRun) ev(e, k string, n, m int, err string) {
 	r.mu.Unlock()
 }
 
+// spos maps the i-th byte netpoll can deliver to its position in the peer's stream (bytes a thief stole are skipped)
+func (r *vConnRun) stolen() (n int) {
+	for _, sk := range r.skips {
+		n += sk[1]
+	}
+	return n
+}
+
+func (r *vConnRun) spos(i int) int {
+	for _, sk := range r.skips {
+		if sk[0] <= i {
+			i += sk[1]
+		}
+	}
+	return i
+}
+
 // consume n bytes through the Reader API (blocking if needed) and check them against the stream
 func (r *vConnRun) consume(n int, timed bool) error {
 	if n < 0 {
@@ -161,7 +195,10 @@ func (r *vConnRun) consume(n int, timed bool) error {
 			return nil
 		}
 	}
-	r.ev("Call", "Next", n, r.inLen(), "")
+	r.ev("Call", "Next", n, r.inLen(), map[bool]string{true: "pastdl", false: ""}[r.pastDeadline])
+	if r.pastDeadline {
+		r.ev("TimerFire", "read", 0, 0, "")
+	}
 	p, err := r.c.Reader().Next(n)
 	ok := 1
 	if err == nil {
@@ -169,7 +206,7 @@ func (r *vConnRun) consume(n int, timed bool) error {
 			ok = 0
 		}
 		for i := range p {
-			if p[i] != vStreamByte(r.rdpos+i) {
+			if p[i] != vStreamByte(r.spos(r.rdpos+i)) {
 				ok = 0
 				break
 			}
@@ -198,7 +235,7 @@ func (r *vConnRun) until() error {
 		ok = 0
 	}
 	for i := range p {
-		if p[i] != vStreamByte(r.rdpos+i) {
+		if p[i] != vStreamByte(r.spos(r.rdpos+i)) {
 			ok = 0
 			break
 		}
@@ -315,6 +352,10 @@ func (r *vConnRun) options() *options {
 	if sc.OnDisc {
 		o.onDisconnect = func(ctx context.Context, conn Connection) {
 			r.ev("CbStart", "disconnect", 0, 0, "")
+			if sc.DiscBody == "waitwriters" {
+				// an application that joins its writer goroutines in OnDisconnect: they must have been woken by then
+				r.s.BlockUntil(func() bool { return atomic.LoadInt32(&r.writersLeft) == 0 })
+			}
 			r.ev("CbEnd", "disconnect", 0, 0, "")
 		}
 	}
@@ -358,6 +399,14 @@ func (r *vConnRun) runActor(a vActorSpec) {
 		case "NextT":
 			r.c.SetReadTimeout(time.Hour) // fired by the scheduler only
 			r.consume(arg, true)
+		case "NextD":
+			// a read whose absolute deadline has already passed: it succeeds if the bytes are buffered, else it times out at once
+			r.c.SetReadTimeout(0)
+			r.c.SetReadDeadline(time.Now().Add(-time.Millisecond))
+			r.pastDeadline = true
+			r.consume(arg, true)
+			r.pastDeadline = false
+			r.c.SetReadDeadline(time.Time{})
 		case "Until":
 			r.c.SetReadTimeout(0)
 			r.until()
@@ -547,6 +596,7 @@ func vRunConnScenario(sc *vScenario) (out []vOutEvent, info map[string]interface
 		r.ev("Accepted", "", 0, 0, "")
 	})
 	mp.start()
+	r.writersLeft = int32(r.writers())
 	for _, a := range sc.Actors {
 		a := a
 		s.Go(a.Name, func() {
@@ -558,6 +608,9 @@ func vRunConnScenario(sc *vScenario) (out []vOutEvent, info map[string]interface
 			}()
 			s.BlockUntil(func() bool { return r.accepted() })
 			r.runActor(a)
+			if vIsWriter(a) {
+				atomic.AddInt32(&r.writersLeft, -1)
+			}
 		})
 	}
 	// the peer script is an ordered environment action
@@ -659,6 +712,38 @@ func vRunConnScenario(sc *vScenario) (out []vOutEvent, info map[string]interface
 				int32(len(c.readTrigger)), int32(r.inLen()), int32(atomic.LoadInt64(&c.waitReadSize)), vLoad32(&c.keychain[closing]), opst, int32(rtick), int32(fdPend),
 				vLoad32(&c.keychain[connecting]), vLoad32(&c.keychain[processing]), atomic.LoadInt32(&c.state), det}
 		}
+	}
+	if sc.Steals > 0 {
+		s.AddEnv("steal", sc.Steals, func() bool {
+			if !r.registered() || !peerOpen {
+				return false
+			}
+			mid := false
+			s.mu.Lock()
+			for _, a := range s.list {
+				if a.name == "poller" && a.state == vStParked && (a.gate.pt == vpHandlerEvent || a.gate.pt == vpOpDo) {
+					mid = true
+				}
+			}
+			s.mu.Unlock()
+			if !mid {
+				return false
+			}
+			// only with a backlog above one booking already buffered (that is when a lost booking matters)
+			if r.inLen() <= 4096 {
+				return false
+			}
+			n, err := vIoctlInt(c.fd, syscall.TIOCINQ)
+			return err == nil && n > 0
+		}, func() {
+			unread, _ := vIoctlInt(c.fd, syscall.TIOCINQ)
+			buf := make([]byte, unread)
+			got, _ := syscall.Read(c.fd, buf)
+			if got > 0 {
+				r.skips = append(r.skips, [2]int{r.sent - unread, got})
+				r.ev("PeerSteal", "", got, 0, "")
+			}
+		})
 	}
 	s.AddTimerEnv("rtimer", c, false, 2)
 	s.AddTimerEnv("wtimer", c, true, 2)
